@@ -14,22 +14,26 @@ def Ident.tok (i : Ident) : String := if i.raw then "r#" ++ i.name else i.name
 
 def colon2 : Toks := [":", ":"]
 
-/-- `a :: b :: c`, with a leading `::` when `leading`. -/
+/-- `a :: b :: c`, with a leading `::` when `leading`; generic arguments after the segment that carries them. -/
 def MPath.toks (p : MPath) : Toks :=
-  let rec go : List Ident → Toks
-    | [] => []
-    | [i] => [i.tok]
-    | i :: rest => i.tok :: colon2 ++ go rest
-  (if p.leading then colon2 else []) ++ go p.segs
+  let argsAt (n : Nat) : Toks :=
+    match p.args with
+    | some (m, t) => if m = n then t else []
+    | none => []
+  let rec go : Nat → List Ident → Toks
+    | _, [] => []
+    | n, [i] => i.tok :: argsAt n
+    | n, i :: rest => i.tok :: argsAt n ++ colon2 ++ go (n + 1) rest
+  (if p.leading then colon2 else []) ++ go 1 p.segs
 
 def corePath (segs : List String) : Toks :=
-  (MPath.mk true (segs.map fun s => ⟨s, false⟩)).toks
+  (MPath.mk true (segs.map fun s => ⟨s, false⟩) none).toks
 
 /-- `DeriveTrait::crate_`. -/
 def DeriveTrait.crateRoot (t : DeriveTrait) : MPath :=
   match t.trait with
   | .zeroize | .zeroizeOnDrop => t.crate_.getD zeroizeRoot
-  | _ => ⟨true, [⟨"core", false⟩]⟩
+  | _ => ⟨true, [⟨"core", false⟩], none⟩
 
 def MPath.push (p : MPath) (segs : List String) : MPath :=
   { p with segs := p.segs ++ segs.map fun s => ⟨s, false⟩ }
